@@ -111,7 +111,7 @@ def expr(draw: Any, depth: int = 3) -> Any:
     if kind == "attr":
         return ast.Attribute(value=e(), attr=draw(st.sampled_from(ATTRS)), ctx=ast.Load())
     if kind == "subscript":
-        return ast.Subscript(value=e(), slice=draw(st.one_of(expr(depth - 1), st.just(ast.Tuple(elts=[e(), e()], ctx=ast.Load())))), ctx=ast.Load())
+        return ast.Subscript(value=e(), slice=draw(st.one_of(expr(depth - 1), st.just(ast.Tuple(elts=[e(), e()], ctx=ast.Load())), st.just(ast.Tuple(elts=[e()], ctx=ast.Load())))), ctx=ast.Load())
     if kind == "slice":
         parts = [draw(st.one_of(st.none(), expr(depth - 1))) for _ in range(3)]
         return ast.Subscript(value=e(), slice=ast.Slice(lower=parts[0], upper=parts[1], step=parts[2]), ctx=ast.Load())
